@@ -164,3 +164,24 @@ func (x *Exec) callMerged(fn *ssa.Function, args []Value, caller *frame) (res Va
 	}
 	return t, true
 }
+
+// opaqueErrorCtor: the error constructors of datacodec/errors.go build messages with fmt and reflect; they are
+// replaced by a fresh non-nil opaque error (DESIGN 2.4).
+func (e *Engine) opaqueErrorCtor(fn *ssa.Function) bool {
+	e.mu.RLock()
+	v, found := e.errCtorCache[fn]
+	e.mu.RUnlock()
+	if found {
+		return v
+	}
+	ok := false
+	if fn.Pkg != nil && fn.Pkg.Pkg.Path() == repoModule+"/datacodec" && fn.Signature.Results().Len() == 1 &&
+		types.TypeString(fn.Signature.Results().At(0).Type(), nil) == "error" && fn.Signature.Recv() == nil {
+		p := e.prog.Fset.Position(fn.Pos())
+		ok = strings.HasSuffix(p.Filename, "datacodec/errors.go")
+	}
+	e.mu.Lock()
+	e.errCtorCache[fn] = ok
+	e.mu.Unlock()
+	return ok
+}
